@@ -1,7 +1,7 @@
 #!/bin/bash
 # usage: try_mutant.sh <patch.diff> <property>...   — applies patch to a scratch copy of /repo and runs checks on it
 set -u
-patch=$1; shift
+patch=$(readlink -f "$1"); shift
 d=$(mktemp -d /tmp/hidimut.XXXXXX)
 rsync -a --exclude .git /repo/ $d/
 if ! (cd $d && patch -p1 -s < "$patch"); then echo "PATCH FAILED"; rm -rf $d; exit 3; fi
